@@ -1,9 +1,11 @@
 #!/bin/bash
-# usage: tools/merge_builder.sh <branch>   – take the per-property files of a builder branch, regenerate the aggregates
+# usage: tools/merge_builder.sh <branch> <Cxx> [<Cyy> …] – take the files of the named properties from a builder branch
+# (only paths containing one of the property ids), then regenerate the aggregates
 set -e
-B=$1
+B=$1; shift
 cd "$(dirname "$0")/.."
-files=$(git diff --name-only 5f9ff33 "$B" | grep -v -E '^(MANIFEST.json|known_findings.json|lean/Main.lean|lean/PsModel.lean|evidence/)' || true)
+pat=$(echo "$@" | tr ' ' '|')
+files=$(git diff --name-only 5f9ff33 "$B" | grep -E "($pat)" | grep -v -E '^(evidence/)' || true)
 echo "$files"
 for f in $files; do
   if git cat-file -e "$B:$f" 2>/dev/null; then mkdir -p "$(dirname "$f")"; git show "$B:$f" > "$f"; fi
